@@ -188,6 +188,13 @@ class ViewpointReorienter:
             if sum(1 for point in sorted_points if f.norm(point - original) < constants.TOL) != 1:
                 raise DegenerateGeometryError("Faces are too dubiously aligned to sort the points from this viewpoint!")
 
+        # blockMesh needs a right-handed block: front and top sides stay, left and right are swapped if necessary
+        side_x = sorted_points[1] - sorted_points[0]
+        side_y = sorted_points[3] - sorted_points[0]
+        side_z = sorted_points[4] - sorted_points[0]
+        if np.dot(np.cross(side_x, side_y), side_z) < 0:
+            sorted_points = [sorted_points[i] for i in (1, 0, 3, 2, 5, 4, 7, 6)]
+
         for i, point in enumerate(operation.bottom_face.points):
             point.position = sorted_points[i]
 
